@@ -167,6 +167,16 @@ def gen_cases(tier, rng):
             for k in range(1, 6):
                 cases.append(("rcdom\tgc-xml\tdetach=%d@s%d\t%s" % (k, n, hx(s)), "xml-detach-script"))
                 cases.append(("rcdom\tgc-xml\tdetach=%d@s%d\t%s" % (k, n, per_char(s)), "xml-detach-script"))
+    # a script moves a node under the document and detaches its former (possibly still open) parent
+    for s in XML_SCRIPT_DOCS:
+        for n in range(s.count("script") // 2 + 1):
+            for k in range(1, 7):
+                cases.append(("rcdom\tgc-xml\thoist=%d@s%d\t%s" % (k, n, hx(s)), "xml-hoist-script"))
+                cases.append(("rcdom\tgc-xml\thoist=%d@s%d\t%s" % (k, n, per_char(s)), "xml-hoist-script"))
+    for s in SCRIPT_DOCS[::(3 if tier == "quick" else 1)]:
+        for n in range(s.count("</script>")):
+            for k in range(1, 10 if tier == "quick" else 20):
+                cases.append(("rcdom\tgc-html\thoist=%d@s%d\t%s" % (k, n, hx(s)), "hoist-script"))
     # self-test of the oracle's sensitivity: forget the handle reported last (the fragment context element)
     st_lines = ["rcdom\tgc-html\tfrag=%s,droplast\t%s" % (hx("tr" if s.startswith("<td") else "table" if s.startswith("<tr") or s.startswith("<caption") else "select"), per_char(s))
                 for s in SELFTEST]
